@@ -8,7 +8,8 @@
 //       -> OK <hex out>                                       | PARSE-ERROR | PANIC <msg>
 //   C <iw> <mw> <va> <nl> <hex> [flags i|t|s]   full case: f1 = fmt(x), f2 = fmt(f1), token streams of x and f1,
 //                                   emitted SystemVerilog of x and f1 (pass1, post_pass1, pass2, Emitter)
-//       -> OK f1=<hex> f2=<hex|!err> tx=<stream> tf=<stream|!err> sx=<hex|!err> sf=<hex|!err>
+//       -> OK f1=<hex> f2=<hex|!err> f3=.. n1=.. n2=.. tx=<stream> tf=<stream|!err> sx=<hex|!err> sf=<hex|!err>
+//          (f3 = fmt(f2), n1/n2 = the two passes with vertical_align off; only when f2 != f1)
 //          (stream = items <t|c>:<hex>:<line>:<col> joined by ',' ; '-' when empty)
 //   A <ops...>                      veryl_aligner::Aligner API call sequence with synthetic tokens
 //       -> OK <n> {<line>:<col>:<len>:<dup|->:<width>:<A|B|F>}   sorted     | PANIC <msg>
@@ -26,6 +27,10 @@ use veryl_parser::Parser;
 use veryl_parser::token_collector::TokenCollector;
 use veryl_parser::veryl_token::{Token, TokenSource, VerylToken};
 use veryl_parser::veryl_walker::VerylWalker;
+
+// the source path handed to the parser: a path that has a parent directory (the analyzer resolves
+// `include` / embed paths against it and panics on a bare ""), in a directory that never exists
+const SRC_PATH: &str = "/verif-nonexistent/src/a.veryl";
 
 fn unhex(s: &str) -> Option<String> {
     if s == "-" {
@@ -91,88 +96,91 @@ enum Fail {
     Panic(String),
 }
 
-fn tokens_of(text: &str) -> Result<String, Fail> {
-    let text = text.to_string();
-    let r = isolated(move || {
-        let parser = match Parser::parse(&text, &"") {
-            Ok(p) => p,
-            Err(_) => return None,
-        };
-        let mut tc = TokenCollector::new(true);
-        tc.veryl(&parser.veryl);
-        // a comment token's text ends with '\n' for line comments; ordinary tokens have no
-        // attached kind, so tell them apart by membership in some VerylToken.comments: the
-        // collector pushes token first, then its comments, so recompute with include_comments=false
-        let mut plain = TokenCollector::new(false);
-        plain.veryl(&parser.veryl);
-        let ids: std::collections::HashSet<_> = plain.tokens.iter().map(|t| t.id).collect();
-        let mut items = Vec::with_capacity(tc.tokens.len());
-        for t in &tc.tokens {
-            let k = if ids.contains(&t.id) { 't' } else { 'c' };
-            items.push(format!("{}:{}:{}:{}", k, hex(&t.to_string()), t.line, t.column));
-        }
-        Some(if items.is_empty() {
-            "-".to_string()
-        } else {
-            items.join(",")
-        })
-    });
-    match r {
-        Ok(Some(s)) => Ok(s),
-        Ok(None) => Err(Fail::Parse),
-        Err(m) => Err(Fail::Panic(m)),
+/// What one pass over a text produces: everything from ONE parse, on one fresh thread, in the
+/// order  parse -> TokenCollector -> analyze_pass1 -> Formatter::format (= cmd_fmt.rs)
+///        -> analyze_post_pass1 -> analyze_pass2 -> Emitter::emit (= the build pipeline, default settings).
+/// The formatter only reads the analyzer's attribute table (filled by pass1) and is not read by
+/// the later passes, so running it between pass1 and post_pass1 is the same as running it alone.
+struct Pass {
+    tokens: Option<String>,
+    fmt: Option<String>,
+    sv: Option<String>,
+}
+
+fn collect_tokens(veryl: &veryl_parser::veryl_grammar_trait::Veryl) -> String {
+    let mut tc = TokenCollector::new(true);
+    tc.veryl(veryl);
+    // ordinary tokens vs comments: a second collector without comments gives the ids of the former
+    let mut plain = TokenCollector::new(false);
+    plain.veryl(veryl);
+    let ids: std::collections::HashSet<_> = plain.tokens.iter().map(|t| t.id).collect();
+    let mut items = Vec::with_capacity(tc.tokens.len());
+    for t in &tc.tokens {
+        let k = if ids.contains(&t.id) { 't' } else { 'c' };
+        items.push(format!("{}:{}:{}:{}", k, hex(&t.to_string()), t.line, t.column));
+    }
+    if items.is_empty() {
+        "-".to_string()
+    } else {
+        items.join(",")
     }
 }
 
-fn format_text(cfg: &Cfg, text: &str) -> Result<String, Fail> {
+fn pass(cfg: &Cfg, text: &str, want_tokens: bool, want_fmt: bool, want_sv: bool) -> Result<Pass, Fail> {
     let text = text.to_string();
     let cfg = cfg.clone();
     let r = isolated(move || {
         let metadata = metadata(&cfg);
-        let parser = match Parser::parse(&text, &"") {
+        let parser = match Parser::parse(&text, &SRC_PATH) {
             Ok(p) => p,
             Err(_) => return None,
         };
-        // exactly crates/veryl/src/cmd_fmt.rs
+        let tokens = if want_tokens {
+            Some(collect_tokens(&parser.veryl))
+        } else {
+            None
+        };
         let analyzer = Analyzer::new(&metadata);
-        let _ = analyzer.analyze_pass1("prj", &parser.veryl);
-        let mut formatter = Formatter::new(&metadata);
-        formatter.format(&parser.veryl, &text);
-        Some(formatter.as_str().to_string())
+        let mut fmt = None;
+        let mut sv = None;
+        if want_fmt || want_sv {
+            let _ = analyzer.analyze_pass1("prj", &parser.veryl);
+        }
+        if want_fmt {
+            // exactly crates/veryl/src/cmd_fmt.rs
+            let mut formatter = Formatter::new(&metadata);
+            formatter.format(&parser.veryl, &text);
+            fmt = Some(formatter.as_str().to_string());
+        }
+        if want_sv {
+            // the emitter runs with the default [format]/[build] settings for every text
+            let dflt = Metadata::create_default("prj").unwrap();
+            let mut context = Context::default();
+            let _ = Analyzer::analyze_post_pass1();
+            let _ = analyzer.analyze_pass2(&parser.veryl, &mut context, None);
+            let src = PathBuf::from("a.veryl");
+            let dst = PathBuf::from("a.sv");
+            let map = PathBuf::from("a.sv.map");
+            let mut emitter = Emitter::new(&dflt, "prj", &src, &dst, &map);
+            emitter.emit(&parser.veryl, &text);
+            sv = Some(emitter.as_str().to_string());
+        }
+        Some(Pass { tokens, fmt, sv })
     });
     match r {
-        Ok(Some(s)) => Ok(s),
+        Ok(Some(p)) => Ok(p),
         Ok(None) => Err(Fail::Parse),
         Err(m) => Err(Fail::Panic(m)),
     }
 }
 
-fn emit_sv(text: &str) -> Result<String, Fail> {
-    let text = text.to_string();
-    let r = isolated(move || {
-        // the emitter runs with the default [format]/[build] settings for both texts
-        let metadata = Metadata::create_default("prj").unwrap();
-        let parser = match Parser::parse(&text, &"") {
-            Ok(p) => p,
-            Err(_) => return None,
-        };
-        let analyzer = Analyzer::new(&metadata);
-        let mut context = Context::default();
-        let _ = analyzer.analyze_pass1("prj", &parser.veryl);
-        let _ = Analyzer::analyze_post_pass1();
-        let _ = analyzer.analyze_pass2(&parser.veryl, &mut context, None);
-        let src = PathBuf::from("a.veryl");
-        let dst = PathBuf::from("a.sv");
-        let map = PathBuf::from("a.sv.map");
-        let mut emitter = Emitter::new(&metadata, "prj", &src, &dst, &map);
-        emitter.emit(&parser.veryl, &text);
-        Some(emitter.as_str().to_string())
-    });
-    match r {
-        Ok(Some(s)) => Ok(s),
-        Ok(None) => Err(Fail::Parse),
-        Err(m) => Err(Fail::Panic(m)),
-    }
+fn tokens_of(text: &str) -> Result<String, Fail> {
+    let cfg = Cfg { iw: 4, mw: 120, va: true, nl: NewlineStyle::Auto };
+    pass(&cfg, text, true, false, false).map(|p| p.tokens.unwrap())
+}
+
+fn format_text(cfg: &Cfg, text: &str) -> Result<String, Fail> {
+    pass(cfg, text, false, true, false).map(|p| p.fmt.unwrap())
 }
 
 fn fail_str(f: &Fail) -> String {
@@ -327,52 +335,65 @@ fn handle(line: &str) -> String {
                 None => return "PANIC bad-hex".to_string(),
             };
             let flags = it.next().unwrap_or("its").to_string();
-            let f1 = match format_text(&cfg, &text) {
-                Ok(s) => s,
+            let (wi, wt, ws) = (flags.contains('i'), flags.contains('t'), flags.contains('s'));
+            let skip = || "!skip".to_string();
+            let opt = |o: Option<String>, hexed: bool| match o {
+                Some(s) => {
+                    if hexed {
+                        hex(&s)
+                    } else {
+                        s
+                    }
+                }
+                None => skip(),
+            };
+            // pass over x
+            let p1 = match pass(&cfg, &text, wt, true, ws) {
+                Ok(p) => p,
                 Err(Fail::Parse) => return "PARSE-ERROR".to_string(),
                 Err(Fail::Panic(m)) => return format!("PANIC {}", m.replace('\n', " ")),
             };
-            let skip = || "!skip".to_string();
-            let f2 = if flags.contains('i') {
-                match format_text(&cfg, &f1) {
-                    Ok(s) => hex(&s),
+            let f1 = p1.fmt.clone().unwrap();
+            let tx = opt(p1.tokens, false);
+            let sx = opt(p1.sv, true);
+            // pass over f1 = fmt(x): f2 = fmt(f1), its tokens and its SystemVerilog
+            let (f2s, f2, tf, sf) = match pass(&cfg, &f1, wt, wi, ws) {
+                Ok(p) => (p.fmt.clone(), opt(p.fmt, true), opt(p.tokens, false), opt(p.sv, true)),
+                Err(e) => (None, fail_str(&e), fail_str(&e), fail_str(&e)),
+            };
+            // when f2 != f1: f3 = fmt(f2) and, with vertical_align on, the two passes with it off
+            let mut f3 = skip();
+            let mut n1 = skip();
+            let mut n2 = skip();
+            if let Some(s2) = f2s
+                && s2 != f1
+            {
+                f3 = match format_text(&cfg, &s2) {
+                    Ok(t) => hex(&t),
                     Err(e) => fail_str(&e),
+                };
+                if cfg.va {
+                    let mut c2 = cfg.clone();
+                    c2.va = false;
+                    match format_text(&c2, &text) {
+                        Ok(a) => {
+                            n2 = match format_text(&c2, &a) {
+                                Ok(b) => hex(&b),
+                                Err(e) => fail_str(&e),
+                            };
+                            n1 = hex(&a);
+                        }
+                        Err(e) => n1 = fail_str(&e),
+                    }
                 }
-            } else {
-                skip()
-            };
-            let (tx, tf) = if flags.contains('t') {
-                (
-                    match tokens_of(&text) {
-                        Ok(s) => s,
-                        Err(e) => fail_str(&e),
-                    },
-                    match tokens_of(&f1) {
-                        Ok(s) => s,
-                        Err(e) => fail_str(&e),
-                    },
-                )
-            } else {
-                (skip(), skip())
-            };
-            let (sx, sf) = if flags.contains('s') {
-                (
-                    match emit_sv(&text) {
-                        Ok(s) => hex(&s),
-                        Err(e) => fail_str(&e),
-                    },
-                    match emit_sv(&f1) {
-                        Ok(s) => hex(&s),
-                        Err(e) => fail_str(&e),
-                    },
-                )
-            } else {
-                (skip(), skip())
-            };
+            }
             format!(
-                "OK f1={} f2={} tx={} tf={} sx={} sf={}",
+                "OK f1={} f2={} f3={} n1={} n2={} tx={} tf={} sx={} sf={}",
                 hex(&f1),
                 f2,
+                f3,
+                n1,
+                n2,
                 tx,
                 tf,
                 sx,
@@ -386,7 +407,9 @@ fn handle(line: &str) -> String {
 
 fn main() {
     // panics are reported on the result line; keep stderr quiet
-    std::panic::set_hook(Box::new(|_| {}));
+    if std::env::var("VH_BACKTRACE").is_err() {
+        std::panic::set_hook(Box::new(|_| {}));
+    }
     let stdin = io::stdin();
     let stdout = io::stdout();
     let mut out = stdout.lock();
